@@ -331,7 +331,8 @@ def install(I):
             "mean": ["a"], "max": ["a"], "amax": ["a"], "min": ["a"], "amin": ["a"], "argmax": ["a"], "minimum": ["x1", "x2"],
             "maximum": ["x1", "x2"], "repeat": ["a", "repeats"], "tile": ["A", "reps"], "isclose": ["a", "b"], "array": ["object"],
             "asarray": ["a"], "ones": ["shape"], "zeros": ["shape"], "searchsorted": ["a", "v"], "quantile": ["a", "q"],
-            "sqrt": ["x"], "abs": ["x"], "absolute": ["x"], "isfinite": ["x"], "isnan": ["x"], "isinf": ["x"], "all": ["a"],
+            "divide": ["x1", "x2"], "true_divide": ["x1", "x2"], "multiply": ["x1", "x2"], "add": ["x1", "x2"], "subtract": ["x1", "x2"],
+            "zeros_like": ["a"], "sqrt": ["x"], "abs": ["x"], "absolute": ["x"], "isfinite": ["x"], "isnan": ["x"], "isinf": ["x"], "all": ["a"],
             "any": ["a"], "ones_like": ["a"], "floor": ["x"], "ceil": ["x"], "exp": ["x"], "log": ["x"]}
 
     def reg(name, f):
@@ -537,6 +538,44 @@ def install(I):
 
     binary("minimum", xminimum)
     binary("maximum", xmaximum)
+
+    def np_zeros_like(I_, a, k):
+        arr = to_arr(I_, a[0])
+        return SymArr(arr.length, lambda i: XR.const(0, npk=True), "xr") if arr.items is None else \
+            SymArr(len(arr.items), kind="xr", items=[XR.const(0, npk=True) for _ in arr.items])
+
+    reg("zeros_like", np_zeros_like)
+
+    def ufunc_with_where(name, f):
+        """np.add / subtract / multiply / divide (x1, x2, out=None, where=True): elementwise; where the mask is false the result
+        keeps out's value (an uninitialised value if out is absent: modelled as an unconstrained real)"""
+        def g(I_, a, k):
+            res = map2(I_, a[0], a[1], lambda x, y: f(xr(I_.norm_scalar(x)).asnp(), xr(I_.norm_scalar(y)).asnp()))
+            w = k.get("where", True)
+            if w is True:
+                return res
+            out = k.get("out")
+            if out is None:
+                fill = lambda i: XR.var(ctx().fresh("uninitialised"), npk=True)
+                return map2(I_, res, w, lambda r, m: r) if False else _select(I_, w, res, None)
+            return _select(I_, w, res, out)
+        reg(name, g)
+
+    def _select(I_, mask, yes, no):
+        M, Y = to_arr(I_, mask), to_arr(I_, yes)
+        Nn = to_arr(I_, no) if no is not None else None
+        def el(i):
+            other = Nn.at(i) if Nn is not None else XR.var(ctx().fresh("uninitialised"), npk=True)
+            return vite(bterm(mkbool(I_.truth_term(M.at(i)))), Y.at(i), other)
+        if Y.items is not None and M.items is not None and (Nn is None or Nn.items is not None):
+            return SymArr(len(Y.items), kind="xr", items=[el(i) for i in range(len(Y.items))])
+        return SymArr(Y.length, el, "xr")
+
+    ufunc_with_where("divide", xdiv_np)
+    ufunc_with_where("true_divide", xdiv_np)
+    ufunc_with_where("multiply", xmul)
+    ufunc_with_where("add", xadd)
+    ufunc_with_where("subtract", xsub)
 
     def np_isclose(I_, a, k):
         rtol = k.get("rtol", XR.const(Fraction(1, 10 ** 5)))
